@@ -8,6 +8,7 @@ package main
 import (
 	"fmt"
 	"math"
+	"reflect"
 	"unsafe"
 
 	gocvss20 "github.com/pandatix/go-cvss/20"
@@ -32,8 +33,14 @@ type verAPI interface {
 	Rating(f float64) (string, error)
 	Equal(a, b unsafe.Pointer) bool
 	Copy(dst, src unsafe.Pointer)
+	// Bytes is the object's value as a comparable string: its memory with
+	// padding bytes zeroed (padding is not part of ==). For value types that
+	// contain pointers (PtrFree false) it is followed by every Get, so that
+	// state reached through a pointer is part of the value as well.
 	Bytes(p unsafe.Pointer) string
+	// FromBytes rebuilds an object from Bytes (only if PtrFree).
 	FromBytes(p unsafe.Pointer, b string)
+	PtrFree() bool
 	ErrName(err error) string
 }
 
@@ -48,7 +55,52 @@ type gapi[T comparable] struct {
 	nomen     func(*T) string
 	rating    func(float64) (string, error)
 	sentinels []namedErr
+	mask      []bool // per byte: significant for == (not padding)
+	ptrFree   bool
+	laidOut   bool
 }
+
+// layout inspects T once: which bytes are padding, and whether the value type
+// is free of pointers (then a copy shares nothing and bytes are the value).
+func (g *gapi[T]) layout() {
+	if g.laidOut {
+		return
+	}
+	g.laidOut = true
+	var z T
+	t := reflect.TypeOf(z)
+	g.mask = make([]bool, t.Size())
+	g.ptrFree = true
+	var walk func(t reflect.Type, off uintptr)
+	walk = func(t reflect.Type, off uintptr) {
+		switch t.Kind() {
+		case reflect.Struct:
+			for i := 0; i < t.NumField(); i++ {
+				f := t.Field(i)
+				if f.Name == "_" {
+					continue // blank fields are not part of ==
+				}
+				walk(f.Type, off+f.Offset)
+			}
+		case reflect.Array:
+			for i := 0; i < t.Len(); i++ {
+				walk(t.Elem(), off+uintptr(i)*t.Elem().Size())
+			}
+		case reflect.Pointer, reflect.Slice, reflect.Map, reflect.String, reflect.Interface, reflect.Chan, reflect.Func, reflect.UnsafePointer:
+			g.ptrFree = false
+			for i := uintptr(0); i < t.Size(); i++ {
+				g.mask[off+i] = true
+			}
+		default:
+			for i := uintptr(0); i < t.Size(); i++ {
+				g.mask[off+i] = true
+			}
+		}
+	}
+	walk(t, 0)
+}
+
+func (g *gapi[T]) PtrFree() bool { g.layout(); return g.ptrFree }
 
 type namedErr struct {
 	name string
@@ -81,7 +133,26 @@ func (g *gapi[T]) Rating(f float64) (string, error)             { return g.ratin
 func (g *gapi[T]) Equal(a, b unsafe.Pointer) bool               { return *(*T)(a) == *(*T)(b) }
 func (g *gapi[T]) Copy(dst, src unsafe.Pointer)                 { *(*T)(dst) = *(*T)(src) }
 func (g *gapi[T]) Bytes(p unsafe.Pointer) string {
-	return string(unsafe.Slice((*byte)(p), g.Size()))
+	g.layout()
+	b := make([]byte, g.Size())
+	copy(b, unsafe.Slice((*byte)(p), g.Size()))
+	for i, sig := range g.mask {
+		if !sig {
+			b[i] = 0
+		}
+	}
+	if g.ptrFree {
+		return string(b)
+	}
+	// a value type with pointers inside: add the observable state
+	s := string(b)
+	quietly(func() {
+		for _, ms := range specs[g.ver].Metrics {
+			v, _ := g.get((*T)(p), ms.Abv)
+			s += "|" + v
+		}
+	})
+	return s
 }
 func (g *gapi[T]) FromBytes(p unsafe.Pointer, b string) {
 	copy(unsafe.Slice((*byte)(p), g.Size()), b)
